@@ -313,6 +313,17 @@ func (c *Ctx) VerifyBuiltin(ctorKey string) (*FuncReport, error) {
 			c.emit(st, nil, nil, "typed", fmt.Sprintf("param.%d", i), BoolLit(kindsAgree(d.Params[i], sig.Params().At(i).Type())),
 				fmt.Sprintf("%s parameter %d declared %s, handler takes %s", d.ID, i, d.Params[i], sig.Params().At(i).Type()), false)
 		}
+		for i := 0; okArity && i < len(d.Params); i++ {
+			if d.Params[i].Kind != "list" {
+				continue
+			}
+			// A list schema validates every Go slice whose items validate ([]string as much as []any), and
+			// the expression library passes the evaluated argument on unchanged: reflect.Call accepts it
+			// only when the handler's parameter is an interface type.
+			_, isIface := sig.Params().At(i).Type().Underlying().(*types.Interface)
+			c.emit(st, nil, nil, "typed", fmt.Sprintf("param.%d-takes-every-list-its-schema-accepts", i), BoolLit(isIface),
+				fmt.Sprintf("%s parameter %d is declared a list; the handler takes %s, which reflect.Call refuses for any other slice type", d.ID, i, sig.Params().At(i).Type()), false)
+		}
 		nres := sig.Results().Len()
 		okRes := nres >= 1 && kindsAgree(d.Result, sig.Results().At(0).Type())
 		c.emit(st, nil, nil, "typed", "result", BoolLit(okRes), fmt.Sprintf("%s result declared %s, handler returns %s", d.ID, d.Result, sig.Results()), false)
